@@ -6,7 +6,6 @@ import (
 	"fmt"
 	"runtime"
 	"sort"
-	"strings"
 
 	tel "github.com/nginx/telemetry-exporter/pkg/telemetry"
 	appsv1 "k8s.io/api/apps/v1"
@@ -450,20 +449,62 @@ func collectSnippetsFilterDirectives(g *graph.Graph) ([]string, []int64) {
 	return parseDirectiveContextMapIntoLists(directiveContextMap)
 }
 
+// parseSnippetValueIntoDirectives returns the names of the directives at the top level of the snippet, which are the
+// directives that are in the NGINX context of the snippet. The snippet is split into tokens the way NGINX does it
+// (quoted tokens, backslash escapes, comments, "${", any whitespace), so that no part of an argument, of a comment or of
+// the body of a block is ever returned.
+//
+//nolint:gocyclo
 func parseSnippetValueIntoDirectives(snippetValue string) []string {
-	separatedDirectives := strings.Split(snippetValue, ";")
-	directives := make([]string, 0, len(separatedDirectives))
+	var directives []string
 
-	for _, directive := range separatedDirectives {
-		// the strings.TrimSpace is needed in the case of multi-line NGINX Snippet values
-		directive = strings.Split(strings.TrimSpace(directive), " ")[0]
+	var token []byte
+	var quote byte // the quote character that opened the current token; 0 if the token is not quoted
+	var inToken, escaped, afterDollar, comment, named bool
+	depth := 0
 
-		// splitting on the delimiting character can result in a directive being empty or a space/newline character,
-		// so we check here to ensure it's not
-		if directive != "" {
-			directives = append(directives, directive)
+	endToken := func() {
+		if inToken && !named && depth == 0 && len(token) > 0 {
+			directives = append(directives, string(token))
+		}
+		named = named || inToken
+		inToken, afterDollar, quote, token = false, false, 0, token[:0]
+	}
+
+	for i := 0; i < len(snippetValue); i++ {
+		c := snippetValue[i]
+		isSpace := c == ' ' || c == '\t' || c == '\r' || c == '\n'
+
+		switch {
+		case comment:
+			comment = c != '\n'
+		case escaped:
+			escaped, token = false, append(token, c)
+		case !inToken && (isSpace || c == '#'):
+			comment = c == '#'
+		case !inToken && (c == '"' || c == '\''):
+			inToken, quote = true, c
+		case c == '{' && afterDollar: // "${" does not open a block
+			token = append(token, c)
+		case c == '\\':
+			inToken, escaped, afterDollar, token = true, true, false, append(token, c)
+		case quote != 0 && c == quote:
+			endToken()
+		case quote == 0 && isSpace:
+			endToken()
+		case quote == 0 && (c == ';' || c == '{' || (c == '}' && !inToken)):
+			endToken()
+			named = false
+			if c == '{' {
+				depth++
+			} else if c == '}' && depth > 0 {
+				depth--
+			}
+		default:
+			inToken, afterDollar, token = true, c == '$', append(token, c)
 		}
 	}
+	endToken()
 
 	return directives
 }
